@@ -66,13 +66,18 @@ def is_unique_check_row_contract(k):
 
 
 class IsUniqueOracle(Oracle):
-    quick_cases = 3000
-    bound = "row sequences of 0-5 rows over key alphabet {a,b} x 1-2 key fields out of 2 fields"
+    quick_cases = 30000
+    bound = "row sequences of 0-5 rows over key alphabet {a,b} x 1-2 key fields out of 2 fields; all pairs of rows over 12 separator-laden values with a two-field key"
     def cases(self, ctx):
         for nkeys in (1, 2):
             for n in range(0, 6):
                 for rows in itertools.product(itertools.product("ab", repeat=2), repeat=n):
                     yield (nkeys, [list(r) for r in rows])
+        # keys are tuples of cell texts, not a joined text: values containing separators a joined key would confuse
+        tricky = ["a", "b", "a, b", ", ", "a,", ",b", "('a', 'b')", "a\tb", "", " a", "a b", "ab"]
+        for r1 in itertools.product(tricky, repeat=2):
+            for r2 in itertools.product(tricky, repeat=2):
+                yield (2, [list(r1), list(r2)])
     def check(self, c):
         from cutplace import checks, errors
         nkeys, rows = c
